@@ -47,6 +47,14 @@ theorem transform_leaf_at (ign : Bool) (p : TPath) (h : String) (v : Val)
     transform ign p v = leaf (some h) ign v := by
   cases v <;> simp [transform, hp, hnr]
 
+theorem seg_depends_on : seg "depends_on" = "depends_on" := by decide
+theorem seg_networks : seg "networks" = "networks" := by decide
+theorem seg_build : seg "build" = "build" := by decide
+theorem seg_extends : seg "extends" = "extends" := by decide
+theorem seg_ports : seg "ports" = "ports" := by decide
+theorem seg_env_file : seg "env_file" = "env_file" := by decide
+theorem seg_dns : seg "dns" = "dns" := by decide
+
 theorem transformSeq_congr (ign : Bool) (p : TPath) (v v' : Val)
     (h : transform ign (TPath.nextK p "[]") v = transform ign (TPath.nextK p "[]") v') (pre post : List Val) :
     transformSeq ign p (pre ++ v :: post) = transformSeq ign p (pre ++ v' :: post) := by
